@@ -36,10 +36,16 @@ TRUSTED_BASE = [
     "hand models lean/PdfVerif/Model/CIDFont.lean and Model/TrueTypeCmap.lean of cmapdb/pdffont/pdfdevice functions "
     "(correspondence is sampling)",
     "tools/translate/gen_c07.py regenerates IDENTITY_ENCODER, the four identity CMap names of CMapDB.get_cmap, the "
-    "DW/DW2 defaults, the TrueType collections tuple and the writing-mode argument of get_unicode_map from the source",
+    "DW/DW2 defaults, the TrueType collections tuple, the writing-mode argument of get_unicode_map, the popall "
+    "keywords of CMapParser.do_keyword and the separator of the cidcoding f-string from the source",
     "Python twin of the Lean spec in tools/harness/props/c07.py (compared with the Lean spec on every case)",
-    "PSStackParser tokenisation of ToUnicode streams is not modelled: the model starts from the token list "
-    "(hex strings, integers, names, arrays, keywords); streams are serialised from tokens in one fixed spelling",
+    "PDFCIDFont.__init__ glue (cidcoding, DW/DW2 validation, choice of W/DW vs W2/DW2 by writing mode) is hand-modelled "
+    "(cidCoding, dwValue, dw2Value, cidCharWidth, cidCharDisp) and tie-checked on ill-typed / ill-formed dictionaries",
+    "front of CMapParser: the tokenizer is C14's model Lexer.specLex (proved equal to the buffered PSBaseParser there); "
+    "the object grouping of PSStackParser.nextobject is hand-modelled (Model/CMapLex.lean groupAux) for flat arrays, "
+    "stray `]`, numbers / strings / names / keywords; dictionaries, procedures, booleans, keywords or brackets inside an "
+    "open array and an array left open are answered `outside` by the model (then only the implementation-vs-spec "
+    "relation is checked); tie by sampling over generated spellings (tubytes group)",
     "shipped CMap pickles are data: validated against Python codecs by sampling (quick) / exhaustively (thorough)",
     "exact rationals stand for Python floats (adv/matrix compared with tolerance 1e-9)",
 ]
@@ -83,6 +89,35 @@ STATEMENT_STATUS: Dict[str, str] = {
     "disp2_spec": "proved: position vector of a cid = (vx, vy) of the font's own latest W2 entry, else (none, DW2[0] or 880)",
     "trie_build_codes": "proved: a trie built by add_code2cid from a prefix-free table has the table's codes",
     "trie_build_decode": "proved: CMap.decode on the built trie = CIDs of the table's codes",
+    "widths2_total": "proved: get_widths2 returns a dictionary on EVERY element list (ill-formed arrays included)",
+    "cidfont_metrics_total": "proved: every CID font has a width and a displacement for every cid, any W/DW/W2/DW2",
+    "dw2Value_eq": "proved (helper): DW2 validation = the pair of a two-number list, else the regenerated default",
+    "cidfont_width_spec": "proved: PDFCIDFont.char_width (horizontal) from the dictionary = latest W entry, else DW if a "
+                          "number, else 1000; every DW value, W2/DW2 irrelevant",
+    "cidfont_width2_spec": "proved: vertical width and position vector = latest W2 entry, else DW2 if a list of two "
+                           "numbers, else [880 -1000]; W/DW irrelevant",
+    "writing_mode_selects_arrays": "proved: the writing mode alone decides which arrays are read; horizontal disp = 0",
+    "cidcoding_spec": "proved: cidcoding = Registry-Ordering with surrounding white space (str.strip) removed",
+    "popall_keywords_tied": "proved: the model's operand-discarding keywords = the popall branches of do_keyword, "
+                            "regenerated from cmapdb.py",
+    "unicode_map_from_cidsysteminfo": "proved: from the raw CIDSystemInfo (any surrounding white space) a font without "
+                                      "ToUnicode reads the table Registry-Ordering of its CMap's writing mode",
+    "usecmap_def_ignored": "proved: /Name usecmap and /Key value def leave map and operand stack unchanged",
+    "cidcoding_unknown": "proved: missing / ill-typed Registry and Ordering read as unknown-unknown",
+    "cidchar_map": "proved (handler level): cid <code> pairs -> cid maps to the UTF-16BE text of the string",
+    "cidrange_map": "proved (handler level): <lo> <hi> cid -> cid+i maps to the text of code lo+i (carry form), no "
+                    "exception for codes of any length",
+    "codespace_ignored": "proved: codespace / notdef range sections (one or several code widths) leave the parsed map "
+                         "unchanged, whatever their operands",
+    "tounicode_bytes_spec": "proved: from the BYTES of a ToUnicode CMap file (header, bfchar/bfrange sections in inDomain with "
+                            "any written count, trailer; any non-empty separator of white space / comments after every "
+                            "object) tokenizer + PSStackParser grouping + CMapParser = specified map",
+    "tounicode_bytes_assignments": "proved: the same without the U+00A0 hypothesis (sequence of assignments)",
+    "stackparser_groups_objects": "proved: PSStackParser grouping inverts the flattening of objects (flat arrays) into tokens",
+    "tounicode_text_identity_partial": "partial: text of a shown string = ToUnicode text of its codes for the identity "
+                                       "CMaps only (CID = code); table CMaps excluded (open finding tounicode-keyed-by-cid)",
+    "tounicode_keyed_by_cid_cex": "proved counter-example (open finding tounicode-keyed-by-cid): code 82A2 -> CID 845, "
+                                  "ToUnicode <82A2> <3044> gives no text",
     "future work": "utf16 round trip utf16Ignore (utf16Encode cps) = cps; theorems over the Lean model of "
                    "TrueTypeFont.create_unicode_map (formats 0/2/4 are modelled and tie-checked incl. damaged files, "
                    "and checked against independently built tables on the implementation, but no theorem)",
@@ -2135,6 +2170,553 @@ CLASSIFIERS = {
 }
 
 
+# =========================================================================== round 6: PDFCIDFont glue, cid sections
+
+OTHER_KINDS = ["name", "str", "list", "none", "dict"]
+
+
+def other_obj(kind: str):
+    from pdfminer.psparser import LIT
+    return {"name": LIT("x"), "str": b"12", "list": [5], "none": None, "dict": {}}[kind]
+
+
+def welem_from_word(w: str):
+    """Inverse of welem_word (OTHER -> a name object)."""
+    from pdfminer.psparser import LIT
+    if w == "o":
+        return LIT("x")
+    if w.startswith("l:"):
+        return [welem_from_word(x) for x in w[2:].split(";")] if len(w) > 2 else []
+    return parse_num_word(w)
+
+
+def glue_font(cfg):
+    """The PDFCIDFont of a fontglue configuration: W, DW, W2 and DW2 all present (or absent) whatever the mode."""
+    from pdfminer.pdffont import PDFCIDFont
+    from pdfminer.psparser import LIT
+    spec: Dict[str, Any] = {"Type": LIT("Font"), "Subtype": LIT("CIDFontType2"), "BaseFont": LIT("X"),
+                            "CIDSystemInfo": {"Registry": b"Adobe", "Ordering": b"Identity", "Supplement": 0},
+                            "Encoding": LIT("Identity-V" if cfg["vertical"] else "Identity-H"), "FontDescriptor": {}}
+    if cfg["w"] is not None:
+        spec["W"] = [welem_from_word(w) for w in cfg["w"]]
+    if cfg["w2"] is not None:
+        spec["W2"] = [welem_from_word(w) for w in cfg["w2"]]
+    for key in ("dw", "dw2"):
+        v = cfg[key]
+        if v == "-":
+            continue
+        spec[key.upper()] = other_obj(v[2:]) if v.startswith("o:") else welem_from_word(v)
+    return PDFCIDFont(None, spec)
+
+
+def glue_expect(cfg, cid: int):
+    """What theorems cidfont_width_spec / cidfont_width2_spec say, when the array of the font's writing mode is
+    well-formed: (width, disp); None when that array is not from the grammar."""
+    if cfg["vertical"]:
+        if cfg.get("w2ent") is None:
+            return None
+        sw = spec_widths2([parse_w2ent_word(w) for w in cfg["w2ent"]])
+        d = cfg["dw2"]
+        pair = None
+        if d.startswith("l:"):
+            xs = [x for x in d[2:].split(";") if x] if len(d) > 2 else []
+            if len(xs) == 2 and all(x != "o" for x in xs):
+                pair = (F(parse_num_word(xs[0])), F(parse_num_word(xs[1])))
+        if cid in sw:
+            return sw[cid][0], (sw[cid][1], sw[cid][2])
+        return (pair[1] if pair else F(-1000)), (None, pair[0] if pair else F(880))
+    if cfg.get("went") is None:
+        return None
+    sw = spec_widths([parse_went_word(w) for w in cfg["went"]])
+    d = cfg["dw"]
+    dflt = F(parse_num_word(d)) if d[0] in "if" else F(1000)
+    return sw.get(cid, dflt), 0
+
+
+def disp_words(disp) -> List[str]:
+    if not isinstance(disp, tuple):
+        return ["D", str(disp)]
+    return ["D", "None" if disp[0] is None else C.frac_str(F(disp[0])), C.frac_str(F(disp[1]))]
+
+
+def same_numbers(a: List[str], b_: List[str]) -> bool:
+    if len(a) != len(b_):
+        return False
+    for x, y in zip(a, b_):
+        if x == y:
+            continue
+        try:
+            if not close(F(x), F(y)):
+                return False
+        except (ValueError, ZeroDivisionError):
+            return False
+    return True
+
+
+def check_fontglue(ctx: C.Ctx, lines, meta, cfg, cids, origin="gen") -> None:
+    font, e = call(lambda: glue_font(cfg))
+    if e is not None:
+        ctx.case(("glue", json.dumps(cfg, sort_keys=True)), True, branch="glue:exception")
+        ctx.fail(C.Failure("PDFCIDFont could not be built (W / DW / W2 / DW2 of any shape must be survivable)",
+                           dict(cfg, cid=cids[0] if cids else 0), "a font", exc_line(e),
+                           {"group": "fontglue", "exc": type(e).__name__}))
+        return
+    v = cfg["vertical"]
+    drv = lambda x: "-" if x == "-" else ("o" if x.startswith("o:") else x)  # noqa: E731
+    dw2w = cfg["dw2"]
+    dw2w = "-" if dw2w == "-" else (dw2w if dw2w.startswith("l:") else "l:")      # a DW2 that is no list reads as []
+    for cid in cids:
+        (wd, e1), (dp, e2) = call(lambda: font.char_width(cid) * 1000), call(lambda: font.char_disp(cid))
+        inp = dict(cfg, cid=cid)
+        ctx.case(("glue", json.dumps(inp, sort_keys=True)), True, sample=inp if origin == "gen" else None,
+                 branch="glue:" + ("v" if v else "h") + ":dw=" + (cfg["dw2"] if v else cfg["dw"])[:2]
+                 + (":wild" if (cfg.get("w2ent") if v else cfg.get("went")) is None else ":grammar"))
+        if e1 is not None or e2 is not None:
+            ctx.fail(C.Failure("char_width / char_disp of a CID font raised", inp, "a number", exc_line(e1 or e2),
+                               {"group": "fontglue", "exc": type(e1 or e2).__name__}))
+            continue
+        got = ["R", C.frac_str(F(wd))] + disp_words(dp)
+        lines.append("cw %s %s %s %d %s | %s" % ("1" if v else "0", drv(cfg["dw"]), dw2w, cid,
+                                                 " ".join(cfg["w"]) if cfg["w"] else "-",
+                                                 " ".join(cfg["w2"]) if cfg["w2"] else "-"))
+        meta.append((inp, got))
+        exp = glue_expect(cfg, cid)
+        if exp is not None:
+            want = ["R", C.frac_str(F(exp[0]))] + disp_words(exp[1])
+            if not same_numbers(want, got):
+                ctx.fail(C.Failure("CID font: width / position vector of a cid differs from W/DW (W2/DW2) of its own "
+                                   "writing mode, or an ill-typed default was not replaced by the standard one",
+                                   inp, " ".join(want), " ".join(got),
+                                   {"group": "fontglue", "vertical": v, "dflt": (cfg["dw2"] if v else cfg["dw"])[:2]}))
+
+
+def gen_glue_cfg(rng):
+    v = rng.random() < 0.5
+    went = gen_w_entries(rng)
+    w2ent = gen_w2_entries(rng)
+    w, w2 = render_w(went), render_w2(w2ent)
+    wild_w, wild_w2 = rng.random() < 0.3, rng.random() < 0.3
+    if wild_w:
+        w = mutate_w(rng, w)
+    if wild_w2:
+        w2 = mutate_w(rng, w2)
+    r = rng.random()
+    dw = "-" if r < 0.3 else (num_word(rng.choice([1000, 0, 250.5, 600, -20])) if r < 0.65
+                              else "o:" + rng.choice(OTHER_KINDS))
+    r = rng.random()
+    num = lambda: num_word(rng.choice([880, 700, -1000, -800, -500.5, 0]))  # noqa: E731
+    if r < 0.25:
+        dw2 = "-"
+    elif r < 0.55:
+        dw2 = "l:" + num() + ";" + num()
+    elif r < 0.85:
+        dw2 = "l:" + ";".join(rng.choice([num(), num(), "o"]) for _ in range(rng.choice([0, 1, 2, 2, 3, 4])))
+    else:
+        dw2 = "o:" + rng.choice(["name", "str", "none", "dict"])
+    cfg = {"group": "fontglue", "vertical": v,
+           "w": [welem_word(x) for x in w] if rng.random() < 0.9 else None,
+           "w2": [welem_word(x) for x in w2] if rng.random() < 0.9 else None,
+           "dw": dw, "dw2": dw2,
+           "went": None if wild_w else [went_word(x) for x in went],
+           "w2ent": None if wild_w2 else [w2ent_word(x) for x in w2ent]}
+    if cfg["w"] is None:
+        cfg["went"] = []
+    if cfg["w2"] is None:
+        cfg["w2ent"] = []
+    ents = w2ent if v else went
+    cids = [en[1] for en in ents] + [en[1] + 1 for en in ents] + [en[2] for en in ents if en[0] == "R"]
+    rng.shuffle(cids)
+    cids = [c for c in cids if 0 <= c <= 65535][:3] + [rng.choice(BOUNDARY_CIDS), rng.randint(0, 400)]
+    return cfg, cids
+
+
+def flush_glue(ctx: C.Ctx, lines, meta) -> None:
+    if ctx.driver is not None and lines:
+        for (inp, got), out in zip(meta, ctx.driver.ask(lines)):
+            if not same_numbers(out.split(" "), got):
+                ctx.disagree("fontglue.model", inp, " ".join(got), out)
+
+
+def coding_case(ctx: C.Ctx, b: "Batch", reg, order) -> None:
+    """cidcoding from CIDSystemInfo: implementation vs model; vs `registry.strip()-ordering.strip()` for strings."""
+    from pdfminer.pdffont import PDFCIDFont
+    from pdfminer.psparser import LIT
+    info: Dict[str, Any] = {}
+    if reg is not None:
+        info["Registry"] = reg
+    if order is not None:
+        info["Ordering"] = order
+    font, e = call(lambda: PDFCIDFont(None, {"Type": LIT("Font"), "Subtype": LIT("CIDFontType2"), "BaseFont": LIT("X"),
+                                             "CIDSystemInfo": info, "Encoding": LIT("Identity-H"),
+                                             "FontDescriptor": {}}))
+    word = lambda x: x.hex() if isinstance(x, bytes) and x else ("-" if not isinstance(x, bytes) else None)  # noqa: E731
+    inp = {"group": "coding", "registry": reg.hex() if isinstance(reg, bytes) else None,
+           "ordering": order.hex() if isinstance(order, bytes) else None}
+    ctx.case(("coding", repr(reg), repr(order)), True, branch="coding:" + ("str" if isinstance(reg, bytes) else "other")
+             + ("/str" if isinstance(order, bytes) else "/other"))
+    if e is not None:
+        ctx.fail(C.Failure("PDFCIDFont could not be built from a CIDSystemInfo", inp, "a font", exc_line(e),
+                           {"group": "coding", "exc": type(e).__name__}))
+        return
+    got = "K " + font.cidcoding.encode("latin1").hex()
+    wr, wo = word(reg), word(order)
+    if wr is not None and wo is not None:          # the empty string has no hex word; covered by the property check
+        b.tie("coding.model", "coding %s %s" % (wr, wo), got, inp)
+    white = b" \t\n\r\x0b\x0c\x1c\x1d\x1e\x1f\x85\xa0"
+    want = (reg.strip(white) if isinstance(reg, bytes) else b"unknown") + b"-" + \
+        (order.strip(white) if isinstance(order, bytes) else b"unknown")
+    if got != "K " + want.hex():
+        ctx.fail(C.Failure("cidcoding is not Registry-Ordering with surrounding white space removed", inp,
+                           "K " + want.hex(), got, {"group": "coding"}))
+
+
+def run_umapsel_raw(ctx: C.Ctx) -> None:
+    """CID -> Unicode map choice from the RAW CIDSystemInfo (padded / ill-typed Registry and Ordering): implementation
+    vs model (`fontUnicodeMap`) vs theorem unicode_map_from_cidsysteminfo."""
+    from pdfminer.pdffont import PDFCIDFont
+    from pdfminer.psparser import LIT
+    rng = ctx.rng
+    b = Batch(ctx)
+    shipped = {f[len("to-unicode-"):-10] for f in os.listdir(os.path.join(C.REPO, "pdfminer", "cmap"))
+               if f.startswith("to-unicode-")}
+    white = b" \t\n\r\x0b\x0c\x1c\x1d\x1e\x1f\x85\xa0"
+    pads = [b"", b"", b" ", b"\t", b"\n ", b"\xa0", b"\x85", b"\x1c"]
+    avail = set(all_cmap_names())
+    encs = [e for e in ["Identity-H", "Identity-V", "90ms-RKSJ-V", "90ms-RKSJ-H", "UniGB-UCS2-V", "H", "V"]
+            if e.startswith("Identity") or e in avail]
+    for _ in range(ctx.n(200, 5000)):
+        pick = lambda cores: (rng.choice(pads) + rng.choice(cores) + rng.choice(pads)) if rng.random() < 0.9 \
+            else rng.choice([None, 5, LIT("Adobe")])  # noqa: E731
+        reg = pick([b"Adobe", b"Adobe", b"Adobe", b"Foo", b"adobe"])
+        order = pick([b"Japan1", b"GB1", b"CNS1", b"Korea1", b"Identity", b"UCS", b"Foo", b"Identity X"])
+        enc = rng.choice(encs)
+        tu = rng.choice([None, None, None, "Identity-H", "Foo"])
+        info: Dict[str, Any] = {}
+        if reg is not None:
+            info["Registry"] = reg
+        if order is not None:
+            info["Ordering"] = order
+        spec: Dict[str, Any] = {"Type": LIT("Font"), "Subtype": LIT("CIDFontType2"), "BaseFont": LIT("X"),
+                                "CIDSystemInfo": info, "Encoding": LIT(enc), "FontDescriptor": {}}
+        if tu is not None:
+            spec["ToUnicode"] = LIT(tu)
+        font, e = call(lambda: PDFCIDFont(None, spec))
+        out = describe_umap(font, tu, False) if e is None else exc_line(e)
+        rs = reg.strip(white) if isinstance(reg, bytes) else b"unknown"
+        os_ = order.strip(white) if isinstance(order, bytes) else b"unknown"
+        coding = (rs + b"-" + os_).decode("latin1")
+        vert = enc.endswith("V")
+        inp = {"group": "umapsel_raw", "registry": reg.hex() if isinstance(reg, bytes) else None,
+               "ordering": order.hex() if isinstance(order, bytes) else None, "enc": enc, "tu": tu}
+        ctx.case(("umapsel_raw", json.dumps(inp, sort_keys=True)), True, branch="umapsel_raw:" + out.split(":")[0])
+        w = lambda x: (x.hex() or None) if isinstance(x, bytes) else "-"  # noqa: E731
+        if w(reg) is not None and w(order) is not None:
+            b.tie("umapsel_raw.model", "umapsel2 %s %s %s %s 0 %d %d" % (
+                "-" if tu is None else "n:" + tu.encode().hex(), w(reg), w(order), enc.encode().hex(), vert,
+                coding in shipped), out, inp)
+        if tu is None and coding in shipped:
+            want = "S coll:%s:%s" % (coding, "V" if vert else "H")
+            if out != want:
+                ctx.fail(C.Failure("CID font with a padded CIDSystemInfo does not use the collection table "
+                                   "Registry-Ordering of its CMap's writing mode", inp, want, out,
+                                   {"group": "umapsel_raw", "vertical": vert}))
+    b.flush()
+
+
+def run_fontglue(ctx: C.Ctx) -> None:
+    from pdfminer.psparser import LIT
+    rng = ctx.rng
+    lines: List[str] = []
+    meta: List[Any] = []
+    for _ in range(ctx.n(250, 8000)):
+        cfg, cids = gen_glue_cfg(rng)
+        check_fontglue(ctx, lines, meta, cfg, cids)
+    flush_glue(ctx, lines, meta)
+    b = Batch(ctx)
+    pads = [b"", b" ", b"\t", b"\n ", b"\xa0", b"\x85", b"\x1c\x1f", b"\x0b\x0c\r"]
+    cores = [b"Adobe", b"Japan1", b"Identity", b"A B", b"x", b"\x00", b"\xe9", b"GB1", b"a\xa0b"]
+    for i in range(ctx.n(120, 3000)):
+        def one():
+            r = rng.random()
+            if r < 0.75:
+                return rng.choice(pads) + rng.choice(cores) + rng.choice(pads)
+            if r < 0.85:
+                return rng.choice(pads) + rng.choice(pads)
+            return rng.choice([None, 5, LIT("Adobe"), [b"Adobe"]])
+        coding_case(ctx, b, one(), one())
+    b.flush()
+
+
+def spec_cidsecs(secs) -> Dict[int, List[int]]:
+    """Twin of theorems cidchar_map / cidrange_map (assignments with add_cid2unichr's U+00A0 rule)."""
+    m: Dict[int, List[int]] = {}
+
+    def put(k, cps):
+        if cps == [0xA0] and m.get(k) == [0x20]:
+            return
+        m[k] = cps
+    for kind, ents in secs:
+        for e in ents:
+            if kind == "cidchar":
+                put(e[0], utf16_ignore_ref(e[1]))
+            else:
+                lo, hi, cid = e
+                n = int.from_bytes(hi[-4:], "big") + 1 - int.from_bytes(lo[-4:], "big")
+                for i in range(max(n, 0)):
+                    put(cid + i, utf16_ignore_ref(inc_be(lo, i)))
+    return m
+
+
+def cidsec_toks(secs) -> List[Any]:
+    toks: List[Any] = []
+    for kind, ents in secs:
+        toks += [("i", len(ents)), ("k", "begin" + kind)]
+        for e in ents:
+            toks += [("i", e[0]), ("s", e[1])] if kind == "cidchar" else [("s", e[0]), ("s", e[1]), ("i", e[2])]
+        toks.append(("k", "end" + kind))
+    return toks
+
+
+def cidsec_outcome(secs):
+    toks = HEADER_TOKS + cidsec_toks(secs) + TRAILER_TOKS
+    got, e = call(lambda: impl_tounicode(toks_stream(toks)))
+    return toks, (map_line(got) if e is None else exc_line(e)), map_line(spec_cidsecs(secs))
+
+
+def secs_words(secs):
+    return [[k, [[x.hex() if isinstance(x, bytes) else x for x in e] for e in ents]] for k, ents in secs]
+
+
+def secs_from_words(ws):
+    return [(k, [tuple(bytes.fromhex(x) if isinstance(x, str) else x for x in e) for e in ents]) for k, ents in ws]
+
+
+def check_cidsec(ctx: C.Ctx, b: "Batch", secs, origin="gen") -> None:
+    toks, impl_out, spec_out = cidsec_outcome(secs)
+    inp = {"group": "cidsec", "sections": secs_words(secs)}
+    ctx.case(("cidsec", json.dumps(inp["sections"])), spec_out != "M -", sample=inp if origin == "gen" else None,
+             branch="cidsec:" + "+".join(sorted({k for k, _ in secs})))
+    b.tie("cidsec.model", "tu " + " ".join(tok_word(t) for t in toks), impl_out, inp)
+    if impl_out != spec_out:
+        small = C.ddmin(list(secs), lambda sub: (lambda r: r[1] != r[2])(cidsec_outcome(sub)), 40) or secs
+        _, i2, s2 = cidsec_outcome(small)
+        ctx.fail(C.Failure("cidchar / cidrange sections parsed by CMapParser differ from the map they define",
+                           {"group": "cidsec", "sections": secs_words(small)}, s2, i2,
+                           {"group": "cidsec", "exc": i2[2:] if i2.startswith("E ") else None}))
+
+
+def tuni_case(ctx: C.Ctx, b: "Batch", toks, cids) -> None:
+    """PDFCIDFont.to_unichr on a font whose ToUnicode stream holds these tokens (model op `tuni`)."""
+    from pdfminer.pdffont import PDFCIDFont, PDFUnicodeNotDefined
+    from pdfminer.pdftypes import PDFStream
+    from pdfminer.psparser import LIT
+    data = toks_stream(toks)
+    font, e = call(lambda: PDFCIDFont(None, {
+        "Type": LIT("Font"), "Subtype": LIT("CIDFontType2"), "BaseFont": LIT("X"),
+        "CIDSystemInfo": {"Registry": b"Adobe", "Ordering": b"Japan1", "Supplement": 0},
+        "Encoding": LIT("Identity-H"), "FontDescriptor": {}, "ToUnicode": PDFStream({}, data)}))
+    for cid in cids:
+        if e is not None:
+            out = exc_line(e)
+        else:
+            try:
+                u = font.to_unichr(cid)
+                out = "U " + (".".join("%x" % ord(ch) for ch in u) if u else "-")
+            except PDFUnicodeNotDefined:
+                out = "U undefined"
+        inp = {"group": "tuni", "cid": cid, "tokens": [tok_word(t) for t in toks]}
+        ctx.case(("tuni", cid, tuple(inp["tokens"])), out not in ("U undefined",), branch="tuni:" + out[:3].strip())
+        b.tie("to_unichr.model", "tuni %d %s" % (cid, " ".join(tok_word(t) for t in toks)), out, inp)
+
+
+def run_cidsec(ctx: C.Ctx) -> None:
+    rng0 = ctx.rng
+    b0 = Batch(ctx)
+    for _ in range(ctx.n(80, 3000)):
+        secs = gen_sections(rng0, wild=False)
+        m, _flags = spec_tounicode(secs)
+        keys = sorted(m)
+        cids = [rng0.choice(keys) for _ in range(2) if keys] + [rng0.choice([0, 1, 65, 0x3042, 70000])]
+        tuni_case(ctx, b0, render_sections(secs), [c for c in cids if c >= 0])
+    b0.flush()
+    rng = ctx.rng
+    b = Batch(ctx)
+    for _ in range(ctx.n(200, 8000)):
+        secs = []
+        for _ in range(rng.randint(1, 3)):
+            if rng.random() < 0.4:
+                secs.append(("cidchar", [(rng.choice([0, 1, 65, 300, 65535, -3, rng.randint(0, 70000)]),
+                                          gen_target(rng, wild=rng.random() < 0.2)) for _ in range(rng.randint(0, 4))]))
+            else:
+                ents = []
+                for _ in range(rng.randint(0, 3)):
+                    n = rng.choice([1, 2, 2, 2, 3, 4, 5, 6])
+                    pre = bytes(rng.choice([0, 1, 0x30, 0xFF]) for _ in range(max(n - 4, 0)))
+                    width = min(n, 4)
+                    top = 256 ** width
+                    a = rng.choice([0, 0x41, 0xFE, top - 3, rng.randrange(top)]) % top
+                    span = rng.choice([0, 0, 1, 2, 5, 40, 300, -1, -7])
+                    hi = min(max(a + span, 0), top - 1)
+                    ents.append((pre + a.to_bytes(width, "big"), pre + hi.to_bytes(width, "big"),
+                                 rng.choice([0, 1, 7, 200, 65530, -2, rng.randint(0, 65535)])))
+                secs.append(("cidrange", ents))
+        check_cidsec(ctx, b, secs)
+    b.flush()
+
+
+# =========================================================================== round 6: ToUnicode from BYTES
+
+SEPS = [b" ", b" ", b"\n", b"\r\n", b"\t", b"\x00", b"\x0c", b"  ", b" % c <41> [\n", b"%\r"]
+
+
+def spell_string(rng, bs: bytes, strict: bool) -> bytes:
+    r = rng.random()
+    if r < 0.2:      # literal string spelling
+        return b"(" + b"".join(bytes([c]) if (48 <= c < 58 or 65 <= c < 91 or 97 <= c < 123) else b"\\%03o" % c
+                               for c in bs) + b")"
+    h = bs.hex()
+    if r < 0.5:
+        h = h.upper()
+    if r < 0.35 and h:
+        i = rng.randrange(len(h) + 1)
+        h = h[:i] + rng.choice([" ", "\n", "\t "]) + h[i:]
+    if not strict and h and h[-1] == "0" and rng.random() < 0.1:
+        h = h[:-1]                       # odd number of digits: the last one is padded with 0 (7.3.4.3)
+    return b"<" + h.encode() + b">"
+
+
+def spell_tok(rng, t, strict: bool) -> bytes:
+    k = t[0]
+    if k == "s":
+        return spell_string(rng, t[1], strict)
+    if k == "i":
+        v = t[1]
+        r = rng.random()
+        return (b"+%d" % v) if (v >= 0 and r < 0.1) else (b"%s%03d" % (b"-" if v < 0 else b"", abs(v))) if r < 0.2 \
+            else b"%d" % v
+    if k == "n":
+        nm = t[1]
+        if nm and rng.random() < 0.2:
+            i = rng.randrange(len(nm))
+            nm = nm[:i] + b"#%02X" % nm[i] + nm[i + 1:]
+        return b"/" + nm
+    if k == "a":
+        return b"[" + spell_seq(rng, t[1], strict) + b"]"
+    if k == "k":
+        return t[1].encode()
+    return rng.choice([b"1.5", b".5", b"-2."])
+
+
+def self_delimiting(t) -> bool:
+    return t[0] in ("s", "a")
+
+
+def spell_seq(rng, toks, strict: bool) -> bytes:
+    out = b""
+    for i, t in enumerate(toks):
+        w = spell_tok(rng, t, strict)
+        if i > 0:
+            prev = toks[i - 1]
+            tight = self_delimiting(prev) or w[:1] in (b"<", b"[", b"(", b"/")
+            out += b"" if (tight and rng.random() < 0.3) else rng.choice(SEPS)
+        out += w
+    return out
+
+
+def spell_theorem(rng, sections) -> bytes:
+    """Exactly the spelling of theorem tounicode_bytes_spec: every object (and array element, and bracket) followed by
+    one non-empty separator g of white space / comments; the count before begin... is any digit string."""
+    g = b"".join(rng.choice([b" ", b"\n", b"\r", b"\t", b"\x00", b"\x0c", b"%c <\n", b"%\r"])
+                 for _ in range(rng.randint(1, 3)))
+
+    def obj(t) -> bytes:
+        k = t[0]
+        if k == "s":
+            return b"<" + t[1].hex().encode() + b">" + g
+        if k == "a":
+            return b"[" + g + b"".join(obj(e) for e in t[1]) + b"]" + g
+        if k == "n":
+            return b"/" + t[1] + g
+        if k == "k":
+            return t[1].encode() + g
+        return b"%d" % t[1] + g
+    out = b"".join(obj(t) for t in HEADER_TOKS)
+    for sec in sections:
+        toks = render_sections([sec])[len(HEADER_TOKS):-len(TRAILER_TOKS)]
+        out += rng.choice([b"0", b"1", b"007", b"12", b"99999999999999999999"]) + g + b"".join(obj(t) for t in toks[1:])
+    return out + b"".join(obj(t) for t in TRAILER_TOKS)
+
+
+def tub_outcome(data: bytes) -> str:
+    got, e = call(lambda: impl_tounicode(data))
+    return map_line(got) if e is None else exc_line(e)
+
+
+def check_tubytes(ctx: C.Ctx, b: "Batch", data: bytes, sections, kind: str, origin="gen") -> None:
+    impl_out = tub_outcome(data)
+    inp = {"group": "tubytes", "data": data.hex(), "sections": [sec_word(x) for x in sections] if sections else None}
+    ctx.case(("tub", data), impl_out != "M -", sample=inp if origin == "gen" else None, branch="tub:" + kind)
+    if ctx.driver is not None:
+        out = ctx.driver.ask(["tub " + (data.hex() or "-")])[0] if origin != "gen" else None
+        if origin == "gen":
+            b.lines.append("tub " + (data.hex() or "-"))
+            b.meta.append(("tub", "tubytes.model", inp, impl_out))
+        elif out != "outside" and out != impl_out:
+            ctx.disagree("tubytes.model", inp, impl_out, out)
+    if sections is not None:
+        m, flags = spec_tounicode(sections)
+        if in_domain(flags) and impl_out != map_line(m):
+            ctx.fail(C.Failure("ToUnicode CMap read from the bytes of a conformant spelling (white space, comments, "
+                               "hex case, literal strings, minimal delimiters) differs from the map it defines",
+                               inp, map_line(m), impl_out,
+                               {"group": "tubytes", "exc": impl_out[2:] if impl_out.startswith("E ") else None}))
+
+
+def flush_tub(ctx: C.Ctx, b: "Batch") -> None:
+    """As Batch.flush, but the model may answer `outside` (input leaves the modelled object grammar)."""
+    if ctx.driver is None or not b.lines:
+        b.lines, b.meta = [], []
+        return
+    outs = ctx.driver.ask(b.lines)
+    for (_, op, inp, exp), got in zip(b.meta, outs):
+        if got == "outside":
+            ctx.branch("tub:model-outside")
+        elif exp != got:
+            ctx.disagree(op, inp, exp, got)
+        else:
+            ctx.branch("tub:model-tied")
+    b.lines, b.meta = [], []
+
+
+def run_tubytes(ctx: C.Ctx) -> None:
+    rng = ctx.rng
+    b = Batch(ctx, auto=False)
+    for i in range(ctx.n(300, 10000)):
+        r = i % 4
+        if r == 0:         # the spelling of theorem tounicode_bytes_spec (any separator, any written count)
+            secs = gen_sections(rng, wild=False)
+            check_tubytes(ctx, b, spell_theorem(rng, secs), secs, "theorem-spelling")
+        elif r == 1:       # in-grammar program, any conformant spelling: implementation vs spec vs byte-level model
+            secs = gen_sections(rng, wild=False)
+            check_tubytes(ctx, b, spell_seq(rng, render_sections(secs), True) + rng.choice([b"", b"\n", b" "]), secs,
+                          "grammar")
+        elif r == 2:       # token soup (wrong operand types, cid sections, stray brackets), any spelling: tie
+            toks = gen_wild_tokens(rng)
+            if rng.random() < 0.5:
+                toks = HEADER_TOKS + toks
+            data = spell_seq(rng, toks, False)
+            if rng.random() < 0.2:
+                data += rng.choice([b" ]", b"] <41> <0042> endbfchar", b" [ <41>"])
+            check_tubytes(ctx, b, data, None, "wild")
+        else:              # outside the modelled object grammar: the model must say so (or agree)
+            secs = gen_sections(rng, wild=False, nsec=1)
+            data = spell_seq(rng, render_sections(secs), False)
+            data = rng.choice([b"<< /A 1 >> ", b"[ 1 foo ] ", b"true ", b"{ 1 } ", b"[ [ 1 ] ] ",
+                               b"<01> <02> [ /A /space ] endbfrange "]) + data
+            check_tubytes(ctx, b, data, None, "outside")
+    flush_tub(ctx, b)
+
+
 def replay(ctx: C.Ctx, doc, from_corpus: bool = False) -> None:
     inp = doc.get("input", {})
     g = inp.get("group")
@@ -2200,6 +2782,19 @@ def replay(ctx: C.Ctx, doc, from_corpus: bool = False) -> None:
             if not close(exp, got):
                 ctx.fail(C.Failure("CID font: width of a cid differs from W/DW (W2/DW2)", inp, str(exp), got,
                                    {"group": "fontwidth", "vertical": vertical}))
+    elif g == "tubytes":
+        check_tubytes(ctx, b, bytes.fromhex(inp["data"]),
+                      [parse_sec_word(w) for w in inp["sections"]] if inp.get("sections") else None, "replay", "replay")
+    elif g == "fontglue":
+        cfg = {k: v for k, v in inp.items() if k != "cid"}
+        lines, meta = [], []
+        check_fontglue(ctx, lines, meta, cfg, [inp.get("cid", 0)], "replay")
+        flush_glue(ctx, lines, meta)
+    elif g == "coding":
+        coding_case(ctx, b, bytes.fromhex(inp["registry"]) if inp.get("registry") is not None else None,
+                    bytes.fromhex(inp["ordering"]) if inp.get("ordering") is not None else None)
+    elif g == "cidsec":
+        check_cidsec(ctx, b, secs_from_words(inp["sections"]), "replay")
     elif g == "widths":
         from pdfminer import pdffont
         vertical = inp["vertical"]
@@ -2249,6 +2844,10 @@ def run(ctx: C.Ctx) -> None:
     run_widths(ctx)
     run_umapsel(ctx)
     run_fontwidth(ctx)
+    run_fontglue(ctx)
+    run_umapsel_raw(ctx)
+    run_cidsec(ctx)
+    run_tubytes(ctx)
     run_ttf(ctx)
     run_doc(ctx)
     run_codec(ctx)
